@@ -96,9 +96,9 @@ def lemma_llka_ext(reads: A[float, 3], counts: A[int, 1], H: A[int, 2], g: A[int
 
 
 @spec_inline
-def CALLOK(reads: A[xfloat, 3], H: A[int, 2], U: int, N: int, NA: int) -> bool:
+def CALLOK(reads: A[xfloat, 3], H: A[int, 2], U: int, N: int, NA: int, n: int) -> bool:
     """well-formed inputs of the callers: haplotype alleles index the read tensor; cells are probabilities or NaN"""
-    return forall(0, U, lambda h: forall(0, N, lambda j: 0 <= H[h, j] and H[h, j] < NA)) and forall(lambda r, j, a: not isninf(reads[r, j, a]) and (isnan(reads[r, j, a]) or reads[r, j, a] >= 0))
+    return forall(0, U, lambda h: forall(0, N, lambda j: 0 <= H[h, j] and H[h, j] < NA)) and READSOK(reads, n, N, NA)
 
 
 @contract("mchap.calling.likelihood.log_likelihood_alleles", machine_ints=True, props=["C04", "C09", "C02"])
@@ -107,7 +107,7 @@ def log_likelihood_alleles(reads: A[f8, 3], read_counts: Opt[A[i8, 1]], haplotyp
     requires(implies(read_counts is not None, len(read_counts) == len(reads)))
     requires(forall(0, len(genotype_alleles), lambda h: 0 <= genotype_alleles[h] and genotype_alleles[h] < len(haplotypes)))
     requires(forall(0, len(haplotypes), lambda h: forall(0, haplotypes.shape[1], lambda j: 0 <= haplotypes[h, j] and haplotypes[h, j] < reads.shape[2])))
-    requires(forall(lambda r, j, a: not isninf(reads[r, j, a]) and (isnan(reads[r, j, a]) or reads[r, j, a] >= 0)))
+    requires(READSOK(reads, len(reads), reads.shape[1], reads.shape[2]))
     requires(implies(read_counts is not None, forall(0, len(reads), lambda r: read_counts[r] >= 0 and implies(read_counts[r] == 0, ARP(reads, haplotypes, genotype_alleles, r, len(genotype_alleles), haplotypes.shape[1], len(genotype_alleles)) > 0))))
     ensures(result == LLKA(reads, ones_if_none(read_counts), haplotypes, genotype_alleles, len(genotype_alleles), haplotypes.shape[1], len(reads)))
     with entry():
@@ -136,7 +136,7 @@ def DCOH(cache: FDict, reads: A[float, 3], counts: A[int, 1], H: A[int, 2], P: i
 def log_likelihood_alleles_cached(reads: A[f8, 3], read_counts: Opt[A[i8, 1]], haplotypes: A[i1, 2], genotype_alleles: A[iN, 1], cache: Opt[FDict]) -> float:
     requires(reads.shape[1] == haplotypes.shape[1], len(genotype_alleles) >= 1)
     requires(implies(read_counts is not None, len(read_counts) == len(reads)))
-    requires(VALIDA(genotype_alleles, PP, len(haplotypes)), CALLOK(reads, haplotypes, len(haplotypes), haplotypes.shape[1], reads.shape[2]))
+    requires(VALIDA(genotype_alleles, PP, len(haplotypes)), CALLOK(reads, haplotypes, len(haplotypes), haplotypes.shape[1], reads.shape[2], len(reads)))
     requires(implies(read_counts is not None, forall(0, len(reads), lambda r: read_counts[r] >= 0 and implies(read_counts[r] == 0, ARP(reads, haplotypes, genotype_alleles, r, PP, haplotypes.shape[1], PP) > 0))))
     # the G-field index of the genotype is exactly representable (C11)
     requires(implies(cache is not None, cwr(len(haplotypes), PP) < 2 ** 53))
